@@ -196,6 +196,35 @@ fn answer(a: &[&str]) -> String {
             }
             match server.join() { Ok(s) if s.starts_with("IDS") => s, Ok(s) => format!("REFUSED {} / {}", client, s), Err(_) => "PANIC".into() }
         }
+        // encode_pdu <peer_max> <payload length per PDV>... -> "OK" | "REJECTED <error>" : a requestor associated (loopback) with an acceptor
+        // whose maximum PDU length is peer_max - 6 sends one P-DATA-TF holding those PDVs
+        "encode_pdu" => {
+            use dicom_ul::association::client::ClientAssociationOptions;
+            use dicom_ul::association::server::ServerAssociationOptions;
+            use dicom_ul::pdu::{PDataValue, PDataValueType, Pdu};
+            let mx: u32 = a[1].parse().unwrap();
+            if mx < 7 { return "UNSUPPORTED peer_max_below_7".into(); }
+            let lens: Vec<usize> = a[2..].iter().map(|x| x.parse().unwrap()).collect();
+            let listener = std::net::TcpListener::bind("127.0.0.1:0").unwrap();
+            let addr = listener.local_addr().unwrap();
+            let server = std::thread::spawn(move || -> String {
+                let (sock, _) = match listener.accept() { Ok(x) => x, Err(e) => return format!("NOACCEPT {}", e) };
+                let opts = ServerAssociationOptions::new().accept_any().with_abstract_syntax("1.2.840.10008.1.1").max_pdu_length(mx - 6).strict(false);
+                match opts.establish(sock) {
+                    Ok(mut assoc) => { let _ = assoc.receive(); "SERVED".into() }
+                    Err(e) => format!("SERVERERR {}", e).replace(' ', "_"),
+                }
+            });
+            let res = ClientAssociationOptions::new().with_abstract_syntax("1.2.840.10008.1.1").connection_timeout(std::time::Duration::from_secs(5)).establish(addr);
+            let mut assoc = match res { Ok(x) => x, Err(e) => { let sv = server.join().unwrap_or_default(); return format!("NOASSOC {} / {}", e, sv).replace(' ', "_") } };
+            let id = assoc.presentation_contexts()[0].id;
+            let data: Vec<PDataValue> = lens.iter().enumerate().map(|(k, n)| PDataValue {
+                presentation_context_id: id, value_type: if k % 2 == 0 { PDataValueType::Command } else { PDataValueType::Data }, is_last: k + 1 == lens.len(), data: vec![0x5A; *n] }).collect();
+            let out = match assoc.send(&Pdu::PData { data }) { Ok(()) => "OK".to_string(), Err(e) => format!("REJECTED {}", e).replace(' ', "_") };
+            let _ = assoc.abort();
+            let _ = server.join();
+            out
+        }
         // pdu_big <L>: write an A-ASSOCIATE-RQ holding one unknown user sub-item with L content bytes, then read the bytes back
         "pdu_big" => {
             use dicom_ul::pdu::{read_pdu, write_pdu, AssociationRQ, Pdu, PresentationContextProposed, UserVariableItem};
